@@ -27,7 +27,7 @@ type c03Dims struct {
 	Dest    int      `json:"dest"`    // 0 ok, 1 empty (allowed), 2 absent (allowed), 3 wrong
 	Issuer  int      `json:"issuer"`  // 0 ok, 1 wrong, 2 absent
 	Status  int      `json:"status"`  // 0 ok, 1 Status absent, 2 StatusCode absent, 3 non-success
-	A       [][4]int `json:"a"`       // per assertion: issuer(0 ok,1 wrong,2 absent), structure(0 ok,1 no Subject,2 no SubjectConfirmation,3 wrong Method,4 no SubjectConfirmationData), recipient(0 ok,1 wrong,2 absent), notOnOrAfter(0 ok,1 reached,2 absent,3 malformed)
+	A       [][4]int `json:"a"`       // per assertion: issuer(0 ok,1 wrong,2 absent), structure(0 ok,1 no Subject,2 no SubjectConfirmation,3 wrong Method,4 no SubjectConfirmationData), recipient(0 ok,1 wrong,2 absent), notOnOrAfter(0 ok,1 reached,2 absent,3 malformed,4 equal to the clock)
 }
 
 type c03Case struct {
@@ -108,6 +108,8 @@ func c03Spec(d c03Dims, cfg int) idp.ResponseSpec {
 			a.SCDNotOnOrAfter = idp.Absent
 		case 3:
 			a.SCDNotOnOrAfter = "next tuesday"
+		case 4:
+			a.SCDNotOnOrAfter = idp.TS(world.T0) // reached at this very instant
 		}
 		if (cfg < 6 && cfg%3 == 1) || cfg == 7 {
 			a.Sign = idp.SignSpec{Key: "K1"}
@@ -178,7 +180,7 @@ func c03Model(d c03Dims, cfg int) []c03Viol {
 			v = append(v, c03Viol{pos + "Recipient", []string{"Recipient"}, []string{"ErrInvalidValue", "ErrMissingElement"}})
 		}
 		switch a[3] {
-		case 1:
+		case 1, 4:
 			v = append(v, c03Viol{pos + "NotOnOrAfter reached", []string{"NotOnOrAfter"}, []string{"ErrInvalidValue"}})
 		case 2:
 			v = append(v, c03Viol{pos + "NotOnOrAfter absent", []string{"NotOnOrAfter"}, []string{"ErrMissingElement"}})
@@ -324,7 +326,7 @@ func c03Gen(n int) func(c *mc.Chooser) c03Dims {
 			a[0] = c.Choose(fmt.Sprintf("a%d.issuer", i), 3)
 			a[1] = c.Choose(fmt.Sprintf("a%d.structure", i), 5)
 			a[2] = c.Choose(fmt.Sprintf("a%d.recipient", i), 3)
-			a[3] = c.Choose(fmt.Sprintf("a%d.notonorafter", i), 4)
+			a[3] = c.Choose(fmt.Sprintf("a%d.notonorafter", i), 5)
 			d.A = append(d.A, a)
 		}
 		return d
